@@ -86,3 +86,1332 @@ VARIANTS = [
  dict(name='benign-filename-explicit-empty', file=F, expect='silent',
       find='\tif fileName == "." || fileName == ".." {', replace='\tif fileName == "" || fileName == "." || fileName == ".." {'),
 ]
+
+# ======================================================================================================================
+# Shapes accepted after the generalisation of the rule set (behaviour-preserving refactorings out-C09/2..4, out-C08/3,
+# out-C16/4) and the same shapes with the property broken.
+# ======================================================================================================================
+# P2/P3/P4: the refactorings /tmp/benign/out-C09/{2,3,4} as hunk-wise edits (applied in order); the mutants below put one
+# property-breaking edit on top of the refactored text (edits of one variant are applied one after the other).
+P2 = [('verifier/trustpolicy/blob.go',
+  '// rule set.\n'
+  '// If any rule is violated, returns an error.\n'
+  'func (policyDoc *BlobDocument) Validate() error {\n'
+  '\t// sanity check\n'
+  '\tif policyDoc == nil {\n'
+  '\t\treturn errors.New("blob trust policy document cannot be nil")\n'
+  '\t}\n'
+  '\n'
+  '\t// Validate Version\n'
+  '\tif policyDoc.Version == "" {\n'
+  '\t\treturn errors.New("blob trust policy document has empty version, version must be specified")\n'
+  '\t}\n'
+  '\tif !slices.Contains(supportedBlobPolicyVersions, policyDoc.Version) {\n'
+  '\t\treturn fmt.Errorf("blob trust policy document uses unsupported version %q", policyDoc.Version)\n'
+  '\t}\n'
+  '\n'
+  '\t// Validate the policy according to 1.0 rules\n'
+  '\tif len(policyDoc.TrustPolicies) == 0 {\n'
+  '\t\treturn errors.New("blob trust policy document can not have zero trust policy statements")\n'
+  '\t}\n'
+  '\tpolicyNames := set.New[string]()\n',
+  '// rule set.\n'
+  '// If any rule is violated, returns an error.\n'
+  'func (policyDoc *BlobDocument) Validate() error {\n'
+  '\tswitch {\n'
+  '\tcase policyDoc == nil:\n'
+  '\t\t// sanity check\n'
+  '\t\treturn errors.New("blob trust policy document cannot be nil")\n'
+  '\tcase policyDoc.Version == "":\n'
+  '\t\t// Validate Version\n'
+  '\t\treturn errors.New("blob trust policy document has empty version, version must be specified")\n'
+  '\tcase !slices.Contains(supportedBlobPolicyVersions, policyDoc.Version):\n'
+  '\t\treturn fmt.Errorf("blob trust policy document uses unsupported version %q", policyDoc.Version)\n'
+  '\tcase len(policyDoc.TrustPolicies) == 0:\n'
+  '\t\t// Validate the policy according to 1.0 rules\n'
+  '\t\treturn errors.New("blob trust policy document can not have zero trust policy statements")\n'
+  '\t}\n'
+  '\tpolicyNames := set.New[string]()\n'),
+ ('verifier/trustpolicy/blob.go',
+  '\t\tif err := validatePolicyCore(statement.Name, statement.SignatureVerification, statement.TrustStores, statement.TrustedIdentities); err != nil {\n'
+  '\t\t\treturn fmt.Errorf("blob trust policy: %w", err)\n'
+  '\t\t}\n'
+  '\t\tif statement.GlobalPolicy {\n'
+  '\t\t\tif foundGlobalPolicy {\n'
+  '\t\t\t\treturn errors.New("multiple blob trust policy statements have globalPolicy set to true. Only one trust policy statement can be marked as global '
+  'policy")\n'
+  '\t\t\t}\n'
+  '\n'
+  '\t\t\t// verificationLevel is skip\n'
+  '\t\t\tif statement.SignatureVerification.VerificationLevel == LevelSkip.Name {\n'
+  '\t\t\t\treturn errors.New("global blob trust policy statement cannot have verification level set to skip")\n'
+  '\t\t\t}\n'
+  '\t\t\tfoundGlobalPolicy = true\n'
+  '\t\t}\n'
+  '\t\tpolicyNames.Add(statement.Name)\n'
+  '\t}\n'
+  '\treturn nil\n'
+  '}\n',
+  '\t\tif err := validatePolicyCore(statement.Name, statement.SignatureVerification, statement.TrustStores, statement.TrustedIdentities); err != nil {\n'
+  '\t\t\treturn fmt.Errorf("blob trust policy: %w", err)\n'
+  '\t\t}\n'
+  '\t\tpolicyNames.Add(statement.Name)\n'
+  '\t\tif !statement.GlobalPolicy {\n'
+  '\t\t\tcontinue\n'
+  '\t\t}\n'
+  '\t\tswitch {\n'
+  '\t\tcase foundGlobalPolicy:\n'
+  '\t\t\treturn errors.New("multiple blob trust policy statements have globalPolicy set to true. Only one trust policy statement can be marked as global '
+  'policy")\n'
+  '\t\tcase statement.SignatureVerification.VerificationLevel == LevelSkip.Name:\n'
+  '\t\t\t// verificationLevel is skip\n'
+  '\t\t\treturn errors.New("global blob trust policy statement cannot have verification level set to skip")\n'
+  '\t\t}\n'
+  '\t\tfoundGlobalPolicy = true\n'
+  '\t}\n'
+  '\treturn nil\n'
+  '}\n'),
+ ('verifier/trustpolicy/oci.go',
+  "// Validate validates a policy document according to its version's rule set.\n"
+  '// if any rule is violated, returns an error\n'
+  'func (policyDoc *OCIDocument) Validate() error {\n'
+  '\t// sanity check\n'
+  '\tif policyDoc == nil {\n'
+  '\t\treturn errors.New("oci trust policy document cannot be nil")\n'
+  '\t}\n'
+  '\n'
+  '\t// Validate Version\n'
+  '\tif policyDoc.Version == "" {\n'
+  '\t\treturn errors.New("oci trust policy document has empty version, version must be specified")\n'
+  '\t}\n'
+  '\tif !slices.Contains(supportedOCIPolicyVersions, policyDoc.Version) {\n'
+  '\t\treturn fmt.Errorf("oci trust policy document uses unsupported version %q", policyDoc.Version)\n'
+  '\t}\n'
+  '\n'
+  '\t// Validate the policy according to 1.0 rules\n'
+  '\tif len(policyDoc.TrustPolicies) == 0 {\n'
+  '\t\treturn errors.New("oci trust policy document can not have zero trust policy statements")\n'
+  '\t}\n'
+  '\tpolicyNames := set.New[string]()\n',
+  "// Validate validates a policy document according to its version's rule set.\n"
+  '// if any rule is violated, returns an error\n'
+  'func (policyDoc *OCIDocument) Validate() error {\n'
+  '\tswitch {\n'
+  '\tcase policyDoc == nil:\n'
+  '\t\t// sanity check\n'
+  '\t\treturn errors.New("oci trust policy document cannot be nil")\n'
+  '\tcase policyDoc.Version == "":\n'
+  '\t\t// Validate Version\n'
+  '\t\treturn errors.New("oci trust policy document has empty version, version must be specified")\n'
+  '\tcase !slices.Contains(supportedOCIPolicyVersions, policyDoc.Version):\n'
+  '\t\treturn fmt.Errorf("oci trust policy document uses unsupported version %q", policyDoc.Version)\n'
+  '\tcase len(policyDoc.TrustPolicies) == 0:\n'
+  '\t\t// Validate the policy according to 1.0 rules\n'
+  '\t\treturn errors.New("oci trust policy document can not have zero trust policy statements")\n'
+  '\t}\n'
+  '\tpolicyNames := set.New[string]()\n'),
+ ('verifier/trustpolicy/oci.go',
+  '\t}\n'
+  '\n'
+  '\t// Verify registry scopes are valid\n'
+  '\tif err := validateRegistryScopes(policyDoc); err != nil {\n'
+  '\t\treturn err\n'
+  '\t}\n'
+  '\treturn nil\n'
+  '}\n'
+  '\n'
+  '// GetApplicableTrustPolicy returns a pointer to the deep copied [OCITrustPolicy]\n',
+  '\t}\n'
+  '\n'
+  '\t// Verify registry scopes are valid\n'
+  '\treturn validateRegistryScopes(policyDoc)\n'
+  '}\n'
+  '\n'
+  '// GetApplicableTrustPolicy returns a pointer to the deep copied [OCITrustPolicy]\n'),
+ ('verifier/trustpolicy/oci.go',
+  '\tregistryScopeCount := make(map[string]int)\n'
+  '\tfor _, statement := range policyDoc.TrustPolicies {\n'
+  '\t\t// Verify registry scopes are valid\n'
+  '\t\tif len(statement.RegistryScopes) == 0 {\n'
+  '\t\t\treturn fmt.Errorf("oci trust policy statement %q has zero registry scopes, it must specify registry scopes with at least one value", statement.Name)\n'
+  '\t\t}\n'
+  '\t\tif len(statement.RegistryScopes) > 1 && slices.Contains(statement.RegistryScopes, trustpolicy.Wildcard) {\n'
+  '\t\t\treturn fmt.Errorf("oci trust policy statement %q uses wildcard registry scope \'*\', a wildcard scope cannot be used in conjunction with other scope '
+  'values", statement.Name)\n'
+  '\t\t}\n'
+  '\t\tfor _, scope := range statement.RegistryScopes {\n',
+  '\tregistryScopeCount := make(map[string]int)\n'
+  '\tfor _, statement := range policyDoc.TrustPolicies {\n'
+  '\t\t// Verify registry scopes are valid\n'
+  '\t\tswitch n := len(statement.RegistryScopes); {\n'
+  '\t\tcase n == 0:\n'
+  '\t\t\treturn fmt.Errorf("oci trust policy statement %q has zero registry scopes, it must specify registry scopes with at least one value", statement.Name)\n'
+  '\t\tcase n > 1 && slices.Contains(statement.RegistryScopes, trustpolicy.Wildcard):\n'
+  '\t\t\treturn fmt.Errorf("oci trust policy statement %q uses wildcard registry scope \'*\', a wildcard scope cannot be used in conjunction with other scope '
+  'values", statement.Name)\n'
+  '\t\t}\n'
+  '\t\tfor _, scope := range statement.RegistryScopes {\n'),
+ ('verifier/trustpolicy/oci.go',
+  '\t}\n'
+  '\n'
+  '\t// Verify one policy statement per registry scope\n'
+  '\tfor key := range registryScopeCount {\n'
+  '\t\tif registryScopeCount[key] > 1 {\n'
+  '\t\t\treturn fmt.Errorf("registry scope %q is present in multiple oci trust policy statements, one registry scope value can only be associated with one '
+  'statement", key)\n'
+  '\t\t}\n'
+  '\t}\n'
+  '\n',
+  '\t}\n'
+  '\n'
+  '\t// Verify one policy statement per registry scope\n'
+  '\tfor scope, count := range registryScopeCount {\n'
+  '\t\tif count > 1 {\n'
+  '\t\t\treturn fmt.Errorf("registry scope %q is present in multiple oci trust policy statements, one registry scope value can only be associated with one '
+  'statement", scope)\n'
+  '\t\t}\n'
+  '\t}\n'
+  '\n'),
+ ('verifier/trustpolicy/oci.go',
+  '\t\treturn fmt.Errorf(errorWildCardMessage, scope)\n'
+  '\t}\n'
+  '\tdomain, repository, found := strings.Cut(scope, "/")\n'
+  '\tif !found {\n'
+  '\t\treturn fmt.Errorf(errorMessage, scope)\n'
+  '\t}\n'
+  '\tif domain == "" || repository == "" || !domainRegexp.MatchString(domain) || !repositoryRegexp.MatchString(repository) {\n'
+  '\t\treturn fmt.Errorf(errorMessage, scope)\n'
+  '\t}\n'
+  '\n',
+  '\t\treturn fmt.Errorf(errorWildCardMessage, scope)\n'
+  '\t}\n'
+  '\tdomain, repository, found := strings.Cut(scope, "/")\n'
+  '\tif !found || domain == "" || repository == "" || !domainRegexp.MatchString(domain) || !repositoryRegexp.MatchString(repository) {\n'
+  '\t\treturn fmt.Errorf(errorMessage, scope)\n'
+  '\t}\n'
+  '\n'),
+ ('verifier/trustpolicy/trustpolicy.go',
+  '\t\tif validationAction == "" {\n'
+  '\t\t\treturn nil, fmt.Errorf("verification action %q in custom signature verification is not supported, supported values are %q", value, '
+  'ValidationActions)\n'
+  '\t\t}\n'
+  '\t\tif validationType == TypeIntegrity {\n'
+  '\t\t\treturn nil, fmt.Errorf("%q verification can not be overridden in custom signature verification", key)\n'
+  '\t\t} else if validationType != TypeRevocation && validationAction == ActionSkip {\n'
+  '\t\t\treturn nil, fmt.Errorf("%q verification can not be skipped in custom signature verification", key)\n'
+  '\t\t}\n'
+  '\t\tcustomVerificationLevel.Enforcement[validationType] = validationAction\n',
+  '\t\tif validationAction == "" {\n'
+  '\t\t\treturn nil, fmt.Errorf("verification action %q in custom signature verification is not supported, supported values are %q", value, '
+  'ValidationActions)\n'
+  '\t\t}\n'
+  '\t\tswitch {\n'
+  '\t\tcase validationType == TypeIntegrity:\n'
+  '\t\t\treturn nil, fmt.Errorf("%q verification can not be overridden in custom signature verification", key)\n'
+  '\t\tcase validationAction == ActionSkip && validationType != TypeRevocation:\n'
+  '\t\t\treturn nil, fmt.Errorf("%q verification can not be skipped in custom signature verification", key)\n'
+  '\t\t}\n'
+  '\t\tcustomVerificationLevel.Enforcement[validationType] = validationAction\n'),
+ ('verifier/trustpolicy/trustpolicy.go',
+  '\tif err != nil {\n'
+  '\t\treturn fmt.Errorf("trust policy statement %q has invalid signatureVerification: %w", name, err)\n'
+  '\t}\n'
+  '\tif signatureVerification.VerifyTimestamp != "" &&\n'
+  '\t\tsignatureVerification.VerifyTimestamp != OptionAlways &&\n'
+  '\t\tsignatureVerification.VerifyTimestamp != OptionAfterCertExpiry {\n'
+  '\t\treturn fmt.Errorf("trust policy statement %q has invalid signatureVerification: verifyTimestamp must be %q or %q, but got %q", name, OptionAlways, '
+  'OptionAfterCertExpiry, signatureVerification.VerifyTimestamp)\n'
+  '\t}\n'
+  '\n'
+  '\t// Any signature verification other than "skip" needs a trust store and\n'
+  '\t// trusted identities\n'
+  '\tif verificationLevel.Name == "skip" {\n'
+  '\t\tif len(trustStores) > 0 || len(trustedIdentities) > 0 {\n'
+  '\t\t\treturn fmt.Errorf("trust policy statement %q is set to skip signature verification but configured with trust stores and/or trusted identities, remove '
+  'them if signature verification needs to be skipped", name)\n'
+  '\t\t}\n'
+  '\t} else {\n'
+  '\t\tif len(trustStores) == 0 || len(trustedIdentities) == 0 {\n'
+  '\t\t\treturn fmt.Errorf("trust policy statement %q is either missing trust stores or trusted identities, both must be specified", name)\n'
+  '\t\t}\n'
+  '\n'
+  '\t\t// Verify Trust Store is valid\n'
+  '\t\tif err := validateTrustStore(name, trustStores); err != nil {\n'
+  '\t\t\treturn err\n'
+  '\t\t}\n'
+  '\n'
+  '\t\t// Verify Trusted Identities are valid\n'
+  '\t\tif err := validateTrustedIdentities(name, trustedIdentities); err != nil {\n'
+  '\t\t\treturn err\n'
+  '\t\t}\n'
+  '\t}\n'
+  '\treturn nil\n'
+  '}\n'
+  '\n'
+  '// validateTrustStore validates if the policy statement is following the\n',
+  '\tif err != nil {\n'
+  '\t\treturn fmt.Errorf("trust policy statement %q has invalid signatureVerification: %w", name, err)\n'
+  '\t}\n'
+  '\tswitch signatureVerification.VerifyTimestamp {\n'
+  '\tcase "", OptionAlways, OptionAfterCertExpiry:\n'
+  '\t\t// not set or a known option\n'
+  '\tdefault:\n'
+  '\t\treturn fmt.Errorf("trust policy statement %q has invalid signatureVerification: verifyTimestamp must be %q or %q, but got %q", name, OptionAlways, '
+  'OptionAfterCertExpiry, signatureVerification.VerifyTimestamp)\n'
+  '\t}\n'
+  '\n'
+  '\t// "skip" must not come with trust stores or trusted identities\n'
+  '\tif verificationLevel.Name == "skip" {\n'
+  '\t\tif len(trustStores) > 0 || len(trustedIdentities) > 0 {\n'
+  '\t\t\treturn fmt.Errorf("trust policy statement %q is set to skip signature verification but configured with trust stores and/or trusted identities, remove '
+  'them if signature verification needs to be skipped", name)\n'
+  '\t\t}\n'
+  '\t\treturn nil\n'
+  '\t}\n'
+  '\n'
+  '\t// Any signature verification other than "skip" needs a trust store and\n'
+  '\t// trusted identities\n'
+  '\tif len(trustStores) == 0 || len(trustedIdentities) == 0 {\n'
+  '\t\treturn fmt.Errorf("trust policy statement %q is either missing trust stores or trusted identities, both must be specified", name)\n'
+  '\t}\n'
+  '\n'
+  '\t// Verify Trust Store is valid\n'
+  '\tif err := validateTrustStore(name, trustStores); err != nil {\n'
+  '\t\treturn err\n'
+  '\t}\n'
+  '\n'
+  '\t// Verify Trusted Identities are valid\n'
+  '\treturn validateTrustedIdentities(name, trustedIdentities)\n'
+  '}\n'
+  '\n'
+  '// validateTrustStore validates if the policy statement is following the\n'),
+ ('verifier/trustpolicy/trustpolicy.go',
+  'func validateTrustStore(policyName string, trustStores []string) error {\n'
+  '\tfor _, trustStore := range trustStores {\n'
+  '\t\tstoreType, namedStore, found := strings.Cut(trustStore, ":")\n'
+  '\t\tif !found {\n'
+  '\t\t\treturn fmt.Errorf("trust policy statement %q has malformed trust store value %q. The required format is <TrustStoreType>:<TrustStoreName>", '
+  'policyName, trustStore)\n'
+  '\t\t}\n'
+  '\t\tif !isValidTrustStoreType(storeType) {\n'
+  '\t\t\treturn fmt.Errorf("trust policy statement %q uses an unsupported trust store type %q in trust store value %q", policyName, storeType, trustStore)\n'
+  '\t\t}\n'
+  '\t\tif !file.IsValidFileName(namedStore) {\n'
+  '\t\t\treturn fmt.Errorf("trust policy statement %q uses an unsupported trust store name %q in trust store value %q. Named store name needs to follow '
+  '[a-zA-Z0-9_.-]+ format", policyName, namedStore, trustStore)\n'
+  '\t\t}\n'
+  '\t}\n',
+  'func validateTrustStore(policyName string, trustStores []string) error {\n'
+  '\tfor _, trustStore := range trustStores {\n'
+  '\t\tstoreType, namedStore, found := strings.Cut(trustStore, ":")\n'
+  '\t\tswitch {\n'
+  '\t\tcase !found:\n'
+  '\t\t\treturn fmt.Errorf("trust policy statement %q has malformed trust store value %q. The required format is <TrustStoreType>:<TrustStoreName>", '
+  'policyName, trustStore)\n'
+  '\t\tcase !isValidTrustStoreType(storeType):\n'
+  '\t\t\treturn fmt.Errorf("trust policy statement %q uses an unsupported trust store type %q in trust store value %q", policyName, storeType, trustStore)\n'
+  '\t\tcase !file.IsValidFileName(namedStore):\n'
+  '\t\t\treturn fmt.Errorf("trust policy statement %q uses an unsupported trust store name %q in trust store value %q. Named store name needs to follow '
+  '[a-zA-Z0-9_.-]+ format", policyName, namedStore, trustStore)\n'
+  '\t\t}\n'
+  '\t}\n'),
+ ('verifier/trustpolicy/trustpolicy.go',
+  '\t\tif identity == "" {\n'
+  '\t\t\treturn fmt.Errorf("trust policy statement %q has an empty trusted identity", policyName)\n'
+  '\t\t}\n'
+  '\t\tif identity != trustpolicy.Wildcard {\n'
+  '\t\t\tidentityPrefix, identityValue, found := strings.Cut(identity, ":")\n'
+  '\t\t\tif !found {\n'
+  '\t\t\t\treturn fmt.Errorf("trust policy statement %q has trusted identity %q missing separator", policyName, identity)\n'
+  '\t\t\t}\n'
+  '\n'
+  '\t\t\t// notation natively supports x509.subject identities only\n'
+  '\t\t\tif identityPrefix == trustpolicy.X509Subject {\n'
+  '\t\t\t\t// identityValue cannot be empty\n'
+  '\t\t\t\tif identityValue == "" {\n'
+  '\t\t\t\t\treturn fmt.Errorf("trust policy statement %q has trusted identity %q without an identity value", policyName, identity)\n'
+  '\t\t\t\t}\n'
+  '\t\t\t\tdn, err := pkix.ParseDistinguishedName(identityValue)\n'
+  '\t\t\t\tif err != nil {\n'
+  '\t\t\t\t\treturn fmt.Errorf("trust policy statement %q has trusted identity %q with invalid identity value: %w", policyName, identity, err)\n'
+  '\t\t\t\t}\n'
+  '\t\t\t\tparsedDNs = append(parsedDNs, parsedDN{RawString: identity, ParsedMap: dn})\n'
+  '\t\t\t}\n'
+  '\t\t}\n'
+  '\t}\n'
+  '\n'
+  '\t// Verify there are no overlapping DNs\n'
+  '\tif err := validateOverlappingDNs(policyName, parsedDNs); err != nil {\n'
+  '\t\treturn err\n'
+  '\t}\n'
+  '\n'
+  '\t// No error\n'
+  '\treturn nil\n'
+  '}\n'
+  '\n'
+  'func validateOverlappingDNs(policyName string, parsedDNs []parsedDN) error {\n'
+  '\tfor i, dn1 := range parsedDNs {\n'
+  '\t\tfor j, dn2 := range parsedDNs {\n'
+  '\t\t\tif i != j && pkix.IsSubsetDN(dn1.ParsedMap, dn2.ParsedMap) {\n'
+  '\t\t\t\treturn fmt.Errorf("trust policy statement %q has overlapping x509 trustedIdentities, %q overlaps with %q", policyName, dn1.RawString, '
+  'dn2.RawString)\n'
+  '\t\t\t}\n'
+  '\t\t}\n',
+  '\t\tif identity == "" {\n'
+  '\t\t\treturn fmt.Errorf("trust policy statement %q has an empty trusted identity", policyName)\n'
+  '\t\t}\n'
+  '\t\tif identity == trustpolicy.Wildcard {\n'
+  '\t\t\tcontinue\n'
+  '\t\t}\n'
+  '\t\tidentityPrefix, identityValue, found := strings.Cut(identity, ":")\n'
+  '\t\tif !found {\n'
+  '\t\t\treturn fmt.Errorf("trust policy statement %q has trusted identity %q missing separator", policyName, identity)\n'
+  '\t\t}\n'
+  '\n'
+  '\t\t// notation natively supports x509.subject identities only\n'
+  '\t\tif identityPrefix != trustpolicy.X509Subject {\n'
+  '\t\t\tcontinue\n'
+  '\t\t}\n'
+  '\n'
+  '\t\t// identityValue cannot be empty\n'
+  '\t\tif identityValue == "" {\n'
+  '\t\t\treturn fmt.Errorf("trust policy statement %q has trusted identity %q without an identity value", policyName, identity)\n'
+  '\t\t}\n'
+  '\t\tdn, err := pkix.ParseDistinguishedName(identityValue)\n'
+  '\t\tif err != nil {\n'
+  '\t\t\treturn fmt.Errorf("trust policy statement %q has trusted identity %q with invalid identity value: %w", policyName, identity, err)\n'
+  '\t\t}\n'
+  '\t\tparsedDNs = append(parsedDNs, parsedDN{RawString: identity, ParsedMap: dn})\n'
+  '\t}\n'
+  '\n'
+  '\t// Verify there are no overlapping DNs\n'
+  '\treturn validateOverlappingDNs(policyName, parsedDNs)\n'
+  '}\n'
+  '\n'
+  'func validateOverlappingDNs(policyName string, parsedDNs []parsedDN) error {\n'
+  '\tfor i, dn1 := range parsedDNs {\n'
+  '\t\tfor j, dn2 := range parsedDNs {\n'
+  '\t\t\tif i == j {\n'
+  '\t\t\t\tcontinue\n'
+  '\t\t\t}\n'
+  '\t\t\tif pkix.IsSubsetDN(dn1.ParsedMap, dn2.ParsedMap) {\n'
+  '\t\t\t\treturn fmt.Errorf("trust policy statement %q has overlapping x509 trustedIdentities, %q overlaps with %q", policyName, dn1.RawString, '
+  'dn2.RawString)\n'
+  '\t\t\t}\n'
+  '\t\t}\n')]
+P3 = [('verifier/trustpolicy/blob.go',
+  '\n'
+  '\t"github.com/notaryproject/notation-go/dir"\n'
+  '\tset "github.com/notaryproject/notation-go/internal/container"\n'
+  '\t"github.com/notaryproject/notation-go/internal/slices"\n'
+  ')\n'
+  '\n'
+  '// BlobDocument represents a trustpolicy.blob.json document for arbitrary blobs\n',
+  '\n'
+  '\t"github.com/notaryproject/notation-go/dir"\n'
+  '\tset "github.com/notaryproject/notation-go/internal/container"\n'
+  ')\n'
+  '\n'
+  '// BlobDocument represents a trustpolicy.blob.json document for arbitrary blobs\n'),
+ ('verifier/trustpolicy/blob.go',
+  '\n'
+  'var supportedBlobPolicyVersions = []string{"1.0"}\n'
+  '\n'
+  '// LoadBlobDocument loads a blob trust policy document from a local file system\n'
+  'func LoadBlobDocument() (*BlobDocument, error) {\n'
+  '\tvar doc BlobDocument\n',
+  '\n'
+  'var supportedBlobPolicyVersions = []string{"1.0"}\n'
+  '\n'
+  '// blobPolicyKind is the document kind used in error messages of the blob\n'
+  '// trust policy\n'
+  'const blobPolicyKind = "blob"\n'
+  '\n'
+  '// LoadBlobDocument loads a blob trust policy document from a local file system\n'
+  'func LoadBlobDocument() (*BlobDocument, error) {\n'
+  '\tvar doc BlobDocument\n'),
+ ('verifier/trustpolicy/blob.go',
+  '\t\treturn errors.New("blob trust policy document cannot be nil")\n'
+  '\t}\n'
+  '\n'
+  '\t// Validate Version\n'
+  '\tif policyDoc.Version == "" {\n'
+  '\t\treturn errors.New("blob trust policy document has empty version, version must be specified")\n'
+  '\t}\n'
+  '\tif !slices.Contains(supportedBlobPolicyVersions, policyDoc.Version) {\n'
+  '\t\treturn fmt.Errorf("blob trust policy document uses unsupported version %q", policyDoc.Version)\n'
+  '\t}\n'
+  '\n'
+  '\t// Validate the policy according to 1.0 rules\n'
+  '\tif len(policyDoc.TrustPolicies) == 0 {\n'
+  '\t\treturn errors.New("blob trust policy document can not have zero trust policy statements")\n'
+  '\t}\n'
+  '\tpolicyNames := set.New[string]()\n'
+  '\tvar foundGlobalPolicy bool\n'
+  '\tfor _, statement := range policyDoc.TrustPolicies {\n'
+  '\t\t// Verify unique policy statement names across the policy document\n'
+  '\t\tif policyNames.Contains(statement.Name) {\n'
+  '\t\t\treturn fmt.Errorf("multiple blob trust policy statements use the same name %q, statement names must be unique", statement.Name)\n'
+  '\t\t}\n'
+  '\t\tif err := validatePolicyCore(statement.Name, statement.SignatureVerification, statement.TrustStores, statement.TrustedIdentities); err != nil {\n'
+  '\t\t\treturn fmt.Errorf("blob trust policy: %w", err)\n'
+  '\t\t}\n'
+  '\t\tif statement.GlobalPolicy {\n'
+  '\t\t\tif foundGlobalPolicy {\n'
+  '\t\t\t\treturn errors.New("multiple blob trust policy statements have globalPolicy set to true. Only one trust policy statement can be marked as global '
+  'policy")\n'
+  '\t\t\t}\n'
+  '\n'
+  '\t\t\t// verificationLevel is skip\n'
+  '\t\t\tif statement.SignatureVerification.VerificationLevel == LevelSkip.Name {\n'
+  '\t\t\t\treturn errors.New("global blob trust policy statement cannot have verification level set to skip")\n'
+  '\t\t\t}\n'
+  '\t\t\tfoundGlobalPolicy = true\n'
+  '\t\t}\n'
+  '\t\tpolicyNames.Add(statement.Name)\n'
+  '\t}\n'
+  '\treturn nil\n'
+  '}\n',
+  '\t\treturn errors.New("blob trust policy document cannot be nil")\n'
+  '\t}\n'
+  '\n'
+  '\t// Validate version and number of statements\n'
+  '\tif err := validateDocumentHeader(blobPolicyKind, policyDoc.Version, supportedBlobPolicyVersions, len(policyDoc.TrustPolicies)); err != nil {\n'
+  '\t\treturn err\n'
+  '\t}\n'
+  '\tpolicyNames := set.New[string]()\n'
+  '\tvar foundGlobalPolicy bool\n'
+  '\tfor _, statement := range policyDoc.TrustPolicies {\n'
+  '\t\tif err := validateStatement(blobPolicyKind, policyNames, statement.Name, statement.SignatureVerification, statement.TrustStores, '
+  'statement.TrustedIdentities); err != nil {\n'
+  '\t\t\treturn err\n'
+  '\t\t}\n'
+  '\t\tif statement.GlobalPolicy {\n'
+  '\t\t\tif err := validateGlobalPolicy(statement.SignatureVerification, foundGlobalPolicy); err != nil {\n'
+  '\t\t\t\treturn err\n'
+  '\t\t\t}\n'
+  '\t\t\tfoundGlobalPolicy = true\n'
+  '\t\t}\n'
+  '\t}\n'
+  '\treturn nil\n'
+  '}\n'
+  '\n'
+  '// validateGlobalPolicy validates the rules that only apply to a statement\n'
+  '// marked as global policy. foundGlobalPolicy tells whether an earlier\n'
+  '// statement of the document is already marked as global policy.\n'
+  'func validateGlobalPolicy(signatureVerification SignatureVerification, foundGlobalPolicy bool) error {\n'
+  '\tif foundGlobalPolicy {\n'
+  '\t\treturn errors.New("multiple blob trust policy statements have globalPolicy set to true. Only one trust policy statement can be marked as global '
+  'policy")\n'
+  '\t}\n'
+  '\n'
+  '\t// verificationLevel is skip\n'
+  '\tif signatureVerification.VerificationLevel == LevelSkip.Name {\n'
+  '\t\treturn errors.New("global blob trust policy statement cannot have verification level set to skip")\n'
+  '\t}\n'
+  '\treturn nil\n'
+  '}\n'),
+ ('verifier/trustpolicy/oci.go',
+  '\n'
+  'var supportedOCIPolicyVersions = []string{"1.0"}\n'
+  '\n'
+  '// LoadOCIDocument retrieves a trust policy document from the local file system.\n'
+  '// It attempts to read from [dir.PathOCITrustPolicy] first; if not found,\n'
+  '// it tries [dir.PathTrustPolicy].\n',
+  '\n'
+  'var supportedOCIPolicyVersions = []string{"1.0"}\n'
+  '\n'
+  '// ociPolicyKind is the document kind used in error messages of the OCI\n'
+  '// trust policy\n'
+  'const ociPolicyKind = "oci"\n'
+  '\n'
+  '// LoadOCIDocument retrieves a trust policy document from the local file system.\n'
+  '// It attempts to read from [dir.PathOCITrustPolicy] first; if not found,\n'
+  '// it tries [dir.PathTrustPolicy].\n'),
+ ('verifier/trustpolicy/oci.go',
+  '\t\treturn errors.New("oci trust policy document cannot be nil")\n'
+  '\t}\n'
+  '\n'
+  '\t// Validate Version\n'
+  '\tif policyDoc.Version == "" {\n'
+  '\t\treturn errors.New("oci trust policy document has empty version, version must be specified")\n'
+  '\t}\n'
+  '\tif !slices.Contains(supportedOCIPolicyVersions, policyDoc.Version) {\n'
+  '\t\treturn fmt.Errorf("oci trust policy document uses unsupported version %q", policyDoc.Version)\n'
+  '\t}\n'
+  '\n'
+  '\t// Validate the policy according to 1.0 rules\n'
+  '\tif len(policyDoc.TrustPolicies) == 0 {\n'
+  '\t\treturn errors.New("oci trust policy document can not have zero trust policy statements")\n'
+  '\t}\n'
+  '\tpolicyNames := set.New[string]()\n'
+  '\tfor _, statement := range policyDoc.TrustPolicies {\n'
+  '\t\t// Verify unique policy statement names across the policy document\n'
+  '\t\tif policyNames.Contains(statement.Name) {\n'
+  '\t\t\treturn fmt.Errorf("multiple oci trust policy statements use the same name %q, statement names must be unique", statement.Name)\n'
+  '\t\t}\n'
+  '\t\tif err := validatePolicyCore(statement.Name, statement.SignatureVerification, statement.TrustStores, statement.TrustedIdentities); err != nil {\n'
+  '\t\t\treturn fmt.Errorf("oci trust policy: %w", err)\n'
+  '\t\t}\n'
+  '\t\tpolicyNames.Add(statement.Name)\n'
+  '\t}\n'
+  '\n'
+  '\t// Verify registry scopes are valid\n',
+  '\t\treturn errors.New("oci trust policy document cannot be nil")\n'
+  '\t}\n'
+  '\n'
+  '\t// Validate version and number of statements\n'
+  '\tif err := validateDocumentHeader(ociPolicyKind, policyDoc.Version, supportedOCIPolicyVersions, len(policyDoc.TrustPolicies)); err != nil {\n'
+  '\t\treturn err\n'
+  '\t}\n'
+  '\tpolicyNames := set.New[string]()\n'
+  '\tfor _, statement := range policyDoc.TrustPolicies {\n'
+  '\t\tif err := validateStatement(ociPolicyKind, policyNames, statement.Name, statement.SignatureVerification, statement.TrustStores, '
+  'statement.TrustedIdentities); err != nil {\n'
+  '\t\t\treturn err\n'
+  '\t\t}\n'
+  '\t}\n'
+  '\n'
+  '\t// Verify registry scopes are valid\n'),
+ ('verifier/trustpolicy/trustpolicy.go',
+  '\t"strings"\n'
+  '\n'
+  '\t"github.com/notaryproject/notation-go/dir"\n'
+  '\t"github.com/notaryproject/notation-go/internal/file"\n'
+  '\t"github.com/notaryproject/notation-go/internal/pkix"\n'
+  '\t"github.com/notaryproject/notation-go/internal/slices"\n',
+  '\t"strings"\n'
+  '\n'
+  '\t"github.com/notaryproject/notation-go/dir"\n'
+  '\tset "github.com/notaryproject/notation-go/internal/container"\n'
+  '\t"github.com/notaryproject/notation-go/internal/file"\n'
+  '\t"github.com/notaryproject/notation-go/internal/pkix"\n'
+  '\t"github.com/notaryproject/notation-go/internal/slices"\n'),
+ ('verifier/trustpolicy/trustpolicy.go',
+  '\t\treturn nil, errors.New("signature verification level is empty or missing in the trust policy statement")\n'
+  '\t}\n'
+  '\n'
+  '\tvar baseLevel *VerificationLevel\n'
+  '\tfor _, l := range VerificationLevels {\n'
+  '\t\tif l.Name == signatureVerification.VerificationLevel {\n'
+  '\t\t\tbaseLevel = l\n'
+  '\t\t}\n'
+  '\t}\n'
+  '\tif baseLevel == nil {\n'
+  '\t\treturn nil, fmt.Errorf("invalid signature verification level %q", signatureVerification.VerificationLevel)\n'
+  '\t}\n',
+  '\t\treturn nil, errors.New("signature verification level is empty or missing in the trust policy statement")\n'
+  '\t}\n'
+  '\n'
+  '\tbaseLevel := findVerificationLevel(signatureVerification.VerificationLevel)\n'
+  '\tif baseLevel == nil {\n'
+  '\t\treturn nil, fmt.Errorf("invalid signature verification level %q", signatureVerification.VerificationLevel)\n'
+  '\t}\n'),
+ ('verifier/trustpolicy/trustpolicy.go',
+  '\n'
+  '\t// override the verification actions with the user configured settings\n'
+  '\tfor key, value := range signatureVerification.Override {\n'
+  '\t\tvar validationType ValidationType\n'
+  '\t\tfor _, t := range ValidationTypes {\n'
+  '\t\t\tif t == key {\n'
+  '\t\t\t\tvalidationType = t\n'
+  '\t\t\t\tbreak\n'
+  '\t\t\t}\n'
+  '\t\t}\n'
+  '\t\tif validationType == "" {\n'
+  '\t\t\treturn nil, fmt.Errorf("verification type %q in custom signature verification is not supported, supported values are %q", key, ValidationTypes)\n'
+  '\t\t}\n'
+  '\n'
+  '\t\tvar validationAction ValidationAction\n'
+  '\t\tfor _, action := range ValidationActions {\n'
+  '\t\t\tif action == value {\n'
+  '\t\t\t\tvalidationAction = action\n'
+  '\t\t\t\tbreak\n'
+  '\t\t\t}\n'
+  '\t\t}\n'
+  '\t\tif validationAction == "" {\n'
+  '\t\t\treturn nil, fmt.Errorf("verification action %q in custom signature verification is not supported, supported values are %q", value, '
+  'ValidationActions)\n'
+  '\t\t}\n'
+  '\t\tif validationType == TypeIntegrity {\n'
+  '\t\t\treturn nil, fmt.Errorf("%q verification can not be overridden in custom signature verification", key)\n'
+  '\t\t} else if validationType != TypeRevocation && validationAction == ActionSkip {\n'
+  '\t\t\treturn nil, fmt.Errorf("%q verification can not be skipped in custom signature verification", key)\n'
+  '\t\t}\n'
+  '\t\tcustomVerificationLevel.Enforcement[validationType] = validationAction\n'
+  '\t}\n'
+  '\treturn customVerificationLevel, nil\n'
+  '}\n'
+  '\n'
+  'func getDocument(path string, v any) error {\n',
+  '\n'
+  '\t// override the verification actions with the user configured settings\n'
+  '\tfor key, value := range signatureVerification.Override {\n'
+  '\t\tvalidationType, validationAction, err := resolveOverride(key, value)\n'
+  '\t\tif err != nil {\n'
+  '\t\t\treturn nil, err\n'
+  '\t\t}\n'
+  '\t\tcustomVerificationLevel.Enforcement[validationType] = validationAction\n'
+  '\t}\n'
+  '\treturn customVerificationLevel, nil\n'
+  '}\n'
+  '\n'
+  '// findVerificationLevel returns the preset [VerificationLevel] with the given\n'
+  '// name, or nil if there is no such preset.\n'
+  'func findVerificationLevel(name string) *VerificationLevel {\n'
+  '\tvar level *VerificationLevel\n'
+  '\tfor _, l := range VerificationLevels {\n'
+  '\t\tif l.Name == name {\n'
+  '\t\t\tlevel = l\n'
+  '\t\t}\n'
+  '\t}\n'
+  '\treturn level\n'
+  '}\n'
+  '\n'
+  '// resolveOverride maps one user configured override entry to the known\n'
+  '// validation type and action. It returns an error if the type or the action\n'
+  '// is not supported or if the type can not be customized in that way.\n'
+  'func resolveOverride(key ValidationType, value ValidationAction) (ValidationType, ValidationAction, error) {\n'
+  '\tvar validationType ValidationType\n'
+  '\tfor _, t := range ValidationTypes {\n'
+  '\t\tif t == key {\n'
+  '\t\t\tvalidationType = t\n'
+  '\t\t\tbreak\n'
+  '\t\t}\n'
+  '\t}\n'
+  '\tif validationType == "" {\n'
+  '\t\treturn "", "", fmt.Errorf("verification type %q in custom signature verification is not supported, supported values are %q", key, ValidationTypes)\n'
+  '\t}\n'
+  '\n'
+  '\tvar validationAction ValidationAction\n'
+  '\tfor _, action := range ValidationActions {\n'
+  '\t\tif action == value {\n'
+  '\t\t\tvalidationAction = action\n'
+  '\t\t\tbreak\n'
+  '\t\t}\n'
+  '\t}\n'
+  '\tif validationAction == "" {\n'
+  '\t\treturn "", "", fmt.Errorf("verification action %q in custom signature verification is not supported, supported values are %q", value, '
+  'ValidationActions)\n'
+  '\t}\n'
+  '\tif validationType == TypeIntegrity {\n'
+  '\t\treturn "", "", fmt.Errorf("%q verification can not be overridden in custom signature verification", key)\n'
+  '\t} else if validationType != TypeRevocation && validationAction == ActionSkip {\n'
+  '\t\treturn "", "", fmt.Errorf("%q verification can not be skipped in custom signature verification", key)\n'
+  '\t}\n'
+  '\treturn validationType, validationAction, nil\n'
+  '}\n'
+  '\n'
+  'func getDocument(path string, v any) error {\n'),
+ ('verifier/trustpolicy/trustpolicy.go',
+  '\treturn nil\n'
+  '}\n'
+  '\n'
+  'func validatePolicyCore(name string, signatureVerification SignatureVerification, trustStores, trustedIdentities []string) error {\n'
+  '\t// Verify statement name is valid\n'
+  '\tif name == "" {\n',
+  '\treturn nil\n'
+  '}\n'
+  '\n'
+  '// validateDocumentHeader runs the document level checks that are common to\n'
+  '// all kinds of trust policy documents. kind is the document kind as it shows\n'
+  '// up in error messages ("oci" or "blob").\n'
+  'func validateDocumentHeader(kind, version string, supportedVersions []string, statementCount int) error {\n'
+  '\t// Validate Version\n'
+  '\tif version == "" {\n'
+  '\t\treturn fmt.Errorf("%s trust policy document has empty version, version must be specified", kind)\n'
+  '\t}\n'
+  '\tif !slices.Contains(supportedVersions, version) {\n'
+  '\t\treturn fmt.Errorf("%s trust policy document uses unsupported version %q", kind, version)\n'
+  '\t}\n'
+  '\n'
+  '\t// Validate the policy according to 1.0 rules\n'
+  '\tif statementCount == 0 {\n'
+  '\t\treturn fmt.Errorf("%s trust policy document can not have zero trust policy statements", kind)\n'
+  '\t}\n'
+  '\treturn nil\n'
+  '}\n'
+  '\n'
+  '// validateStatement runs the statement level checks that are common to all\n'
+  '// kinds of trust policy documents. seenNames holds the names of the\n'
+  '// statements validated so far; on success the name is added to it.\n'
+  'func validateStatement(kind string, seenNames set.Set[string], name string, signatureVerification SignatureVerification, trustStores, trustedIdentities '
+  '[]string) error {\n'
+  '\t// Verify unique policy statement names across the policy document\n'
+  '\tif seenNames.Contains(name) {\n'
+  '\t\treturn fmt.Errorf("multiple %s trust policy statements use the same name %q, statement names must be unique", kind, name)\n'
+  '\t}\n'
+  '\tif err := validatePolicyCore(name, signatureVerification, trustStores, trustedIdentities); err != nil {\n'
+  '\t\treturn fmt.Errorf("%s trust policy: %w", kind, err)\n'
+  '\t}\n'
+  '\tseenNames.Add(name)\n'
+  '\treturn nil\n'
+  '}\n'
+  '\n'
+  '// validateVerifyTimestamp validates the verifyTimestamp option of a statement\n'
+  'func validateVerifyTimestamp(name string, option TimestampOption) error {\n'
+  '\tif option != "" &&\n'
+  '\t\toption != OptionAlways &&\n'
+  '\t\toption != OptionAfterCertExpiry {\n'
+  '\t\treturn fmt.Errorf("trust policy statement %q has invalid signatureVerification: verifyTimestamp must be %q or %q, but got %q", name, OptionAlways, '
+  'OptionAfterCertExpiry, option)\n'
+  '\t}\n'
+  '\treturn nil\n'
+  '}\n'
+  '\n'
+  'func validatePolicyCore(name string, signatureVerification SignatureVerification, trustStores, trustedIdentities []string) error {\n'
+  '\t// Verify statement name is valid\n'
+  '\tif name == "" {\n'),
+ ('verifier/trustpolicy/trustpolicy.go',
+  '\tif err != nil {\n'
+  '\t\treturn fmt.Errorf("trust policy statement %q has invalid signatureVerification: %w", name, err)\n'
+  '\t}\n'
+  '\tif signatureVerification.VerifyTimestamp != "" &&\n'
+  '\t\tsignatureVerification.VerifyTimestamp != OptionAlways &&\n'
+  '\t\tsignatureVerification.VerifyTimestamp != OptionAfterCertExpiry {\n'
+  '\t\treturn fmt.Errorf("trust policy statement %q has invalid signatureVerification: verifyTimestamp must be %q or %q, but got %q", name, OptionAlways, '
+  'OptionAfterCertExpiry, signatureVerification.VerifyTimestamp)\n'
+  '\t}\n'
+  '\n'
+  '\t// Any signature verification other than "skip" needs a trust store and\n',
+  '\tif err != nil {\n'
+  '\t\treturn fmt.Errorf("trust policy statement %q has invalid signatureVerification: %w", name, err)\n'
+  '\t}\n'
+  '\tif err := validateVerifyTimestamp(name, signatureVerification.VerifyTimestamp); err != nil {\n'
+  '\t\treturn err\n'
+  '\t}\n'
+  '\n'
+  '\t// Any signature verification other than "skip" needs a trust store and\n'),
+ ('verifier/trustpolicy/trustpolicy.go',
+  '\tvar parsedDNs []parsedDN\n'
+  '\t// If there are trusted identities, verify they are valid\n'
+  '\tfor _, identity := range tis {\n'
+  '\t\tif identity == "" {\n'
+  '\t\t\treturn fmt.Errorf("trust policy statement %q has an empty trusted identity", policyName)\n'
+  '\t\t}\n'
+  '\t\tif identity != trustpolicy.Wildcard {\n'
+  '\t\t\tidentityPrefix, identityValue, found := strings.Cut(identity, ":")\n'
+  '\t\t\tif !found {\n'
+  '\t\t\t\treturn fmt.Errorf("trust policy statement %q has trusted identity %q missing separator", policyName, identity)\n'
+  '\t\t\t}\n'
+  '\n'
+  '\t\t\t// notation natively supports x509.subject identities only\n'
+  '\t\t\tif identityPrefix == trustpolicy.X509Subject {\n'
+  '\t\t\t\t// identityValue cannot be empty\n'
+  '\t\t\t\tif identityValue == "" {\n'
+  '\t\t\t\t\treturn fmt.Errorf("trust policy statement %q has trusted identity %q without an identity value", policyName, identity)\n'
+  '\t\t\t\t}\n'
+  '\t\t\t\tdn, err := pkix.ParseDistinguishedName(identityValue)\n'
+  '\t\t\t\tif err != nil {\n'
+  '\t\t\t\t\treturn fmt.Errorf("trust policy statement %q has trusted identity %q with invalid identity value: %w", policyName, identity, err)\n'
+  '\t\t\t\t}\n'
+  '\t\t\t\tparsedDNs = append(parsedDNs, parsedDN{RawString: identity, ParsedMap: dn})\n'
+  '\t\t\t}\n'
+  '\t\t}\n'
+  '\t}\n'
+  '\n'
+  '\t// Verify there are no overlapping DNs\n'
+  '\tif err := validateOverlappingDNs(policyName, parsedDNs); err != nil {\n'
+  '\t\treturn err\n'
+  '\t}\n'
+  '\n'
+  '\t// No error\n'
+  '\treturn nil\n'
+  '}\n'
+  '\n'
+  'func validateOverlappingDNs(policyName string, parsedDNs []parsedDN) error {\n'
+  '\tfor i, dn1 := range parsedDNs {\n'
+  '\t\tfor j, dn2 := range parsedDNs {\n'
+  '\t\t\tif i != j && pkix.IsSubsetDN(dn1.ParsedMap, dn2.ParsedMap) {\n',
+  '\tvar parsedDNs []parsedDN\n'
+  '\t// If there are trusted identities, verify they are valid\n'
+  '\tfor _, identity := range tis {\n'
+  '\t\tdn, isX509Subject, err := parseTrustedIdentity(policyName, identity)\n'
+  '\t\tif err != nil {\n'
+  '\t\t\treturn err\n'
+  '\t\t}\n'
+  '\t\tif isX509Subject {\n'
+  '\t\t\tparsedDNs = append(parsedDNs, parsedDN{RawString: identity, ParsedMap: dn})\n'
+  '\t\t}\n'
+  '\t}\n'
+  '\n'
+  '\t// Verify there are no overlapping DNs\n'
+  '\tfor i, dn1 := range parsedDNs {\n'
+  '\t\tfor j, dn2 := range parsedDNs {\n'
+  '\t\t\tif i != j && pkix.IsSubsetDN(dn1.ParsedMap, dn2.ParsedMap) {\n'),
+ ('verifier/trustpolicy/trustpolicy.go',
+  '\t\t\t}\n'
+  '\t\t}\n'
+  '\t}\n'
+  '\treturn nil\n'
+  '}\n'
+  '\n'
+  '// isValidTrustStoreType returns true if the given string is a valid\n'
+  '// [truststore.Type], otherwise false.\n'
+  'func isValidTrustStoreType(s string) bool {\n',
+  '\t\t\t}\n'
+  '\t\t}\n'
+  '\t}\n'
+  '\n'
+  '\t// No error\n'
+  '\treturn nil\n'
+  '}\n'
+  '\n'
+  '// parseTrustedIdentity validates a single trusted identity of the policy\n'
+  '// statement. If the identity is an x509.subject identity, its parsed\n'
+  '// distinguished name is returned and isX509Subject is true.\n'
+  'func parseTrustedIdentity(policyName, identity string) (dn map[string]string, isX509Subject bool, err error) {\n'
+  '\tif identity == "" {\n'
+  '\t\treturn nil, false, fmt.Errorf("trust policy statement %q has an empty trusted identity", policyName)\n'
+  '\t}\n'
+  '\tif identity == trustpolicy.Wildcard {\n'
+  '\t\treturn nil, false, nil\n'
+  '\t}\n'
+  '\tidentityPrefix, identityValue, found := strings.Cut(identity, ":")\n'
+  '\tif !found {\n'
+  '\t\treturn nil, false, fmt.Errorf("trust policy statement %q has trusted identity %q missing separator", policyName, identity)\n'
+  '\t}\n'
+  '\n'
+  '\t// notation natively supports x509.subject identities only\n'
+  '\tif identityPrefix != trustpolicy.X509Subject {\n'
+  '\t\treturn nil, false, nil\n'
+  '\t}\n'
+  '\n'
+  '\t// identityValue cannot be empty\n'
+  '\tif identityValue == "" {\n'
+  '\t\treturn nil, false, fmt.Errorf("trust policy statement %q has trusted identity %q without an identity value", policyName, identity)\n'
+  '\t}\n'
+  '\tdn, err = pkix.ParseDistinguishedName(identityValue)\n'
+  '\tif err != nil {\n'
+  '\t\treturn nil, false, fmt.Errorf("trust policy statement %q has trusted identity %q with invalid identity value: %w", policyName, identity, err)\n'
+  '\t}\n'
+  '\treturn dn, true, nil\n'
+  '}\n'
+  '\n'
+  '// isValidTrustStoreType returns true if the given string is a valid\n'
+  '// [truststore.Type], otherwise false.\n'
+  'func isValidTrustStoreType(s string) bool {\n')]
+P4 = [('verifier/trustpolicy/blob.go',
+  '\tif len(policyDoc.TrustPolicies) == 0 {\n'
+  '\t\treturn errors.New("blob trust policy document can not have zero trust policy statements")\n'
+  '\t}\n'
+  '\tpolicyNames := set.New[string]()\n'
+  '\tvar foundGlobalPolicy bool\n'
+  '\tfor _, statement := range policyDoc.TrustPolicies {\n'
+  '\t\t// Verify unique policy statement names across the policy document\n'
+  '\t\tif policyNames.Contains(statement.Name) {\n'
+  '\t\t\treturn fmt.Errorf("multiple blob trust policy statements use the same name %q, statement names must be unique", statement.Name)\n',
+  '\tif len(policyDoc.TrustPolicies) == 0 {\n'
+  '\t\treturn errors.New("blob trust policy document can not have zero trust policy statements")\n'
+  '\t}\n'
+  '\tstatements := policyDoc.TrustPolicies\n'
+  '\tpolicyNames := set.NewWithSize[string](len(statements))\n'
+  '\tvar foundGlobalPolicy bool\n'
+  '\tfor i := range statements {\n'
+  '\t\t// statements are large, do not copy them\n'
+  '\t\tstatement := &statements[i]\n'
+  '\n'
+  '\t\t// Verify unique policy statement names across the policy document\n'
+  '\t\tif policyNames.Contains(statement.Name) {\n'
+  '\t\t\treturn fmt.Errorf("multiple blob trust policy statements use the same name %q, statement names must be unique", statement.Name)\n'),
+ ('verifier/trustpolicy/oci.go',
+  '\tif len(policyDoc.TrustPolicies) == 0 {\n'
+  '\t\treturn errors.New("oci trust policy document can not have zero trust policy statements")\n'
+  '\t}\n'
+  '\tpolicyNames := set.New[string]()\n'
+  '\tfor _, statement := range policyDoc.TrustPolicies {\n'
+  '\t\t// Verify unique policy statement names across the policy document\n'
+  '\t\tif policyNames.Contains(statement.Name) {\n'
+  '\t\t\treturn fmt.Errorf("multiple oci trust policy statements use the same name %q, statement names must be unique", statement.Name)\n',
+  '\tif len(policyDoc.TrustPolicies) == 0 {\n'
+  '\t\treturn errors.New("oci trust policy document can not have zero trust policy statements")\n'
+  '\t}\n'
+  '\tstatements := policyDoc.TrustPolicies\n'
+  '\tpolicyNames := set.NewWithSize[string](len(statements))\n'
+  '\tfor i := range statements {\n'
+  '\t\t// statements are large, do not copy them\n'
+  '\t\tstatement := &statements[i]\n'
+  '\n'
+  '\t\t// Verify unique policy statement names across the policy document\n'
+  '\t\tif policyNames.Contains(statement.Name) {\n'
+  '\t\t\treturn fmt.Errorf("multiple oci trust policy statements use the same name %q, statement names must be unique", statement.Name)\n'),
+ ('verifier/trustpolicy/oci.go',
+  '\t}\n\n\t// Verify registry scopes are valid\n\tif err := validateRegistryScopes(policyDoc); err != nil {\n\t\treturn err\n\t}\n\treturn nil\n',
+  '\t}\n\n\t// Verify registry scopes are valid\n\tif err := validateRegistryScopes(statements); err != nil {\n\t\treturn err\n\t}\n\treturn nil\n'),
+ ('verifier/trustpolicy/oci.go',
+  '\t}\n'
+  '}\n'
+  '\n'
+  '// validateRegistryScopes validates if the policy document is following the\n'
+  '// Notary Project spec rules for registry scopes\n'
+  'func validateRegistryScopes(policyDoc *OCIDocument) error {\n'
+  '\tregistryScopeCount := make(map[string]int)\n'
+  '\tfor _, statement := range policyDoc.TrustPolicies {\n'
+  '\t\t// Verify registry scopes are valid\n'
+  '\t\tif len(statement.RegistryScopes) == 0 {\n'
+  '\t\t\treturn fmt.Errorf("oci trust policy statement %q has zero registry scopes, it must specify registry scopes with at least one value", statement.Name)\n'
+  '\t\t}\n'
+  '\t\tif len(statement.RegistryScopes) > 1 && slices.Contains(statement.RegistryScopes, trustpolicy.Wildcard) {\n'
+  '\t\t\treturn fmt.Errorf("oci trust policy statement %q uses wildcard registry scope \'*\', a wildcard scope cannot be used in conjunction with other scope '
+  'values", statement.Name)\n'
+  '\t\t}\n'
+  '\t\tfor _, scope := range statement.RegistryScopes {\n'
+  '\t\t\tif scope != trustpolicy.Wildcard {\n'
+  '\t\t\t\tif err := validateRegistryScopeFormat(scope); err != nil {\n'
+  '\t\t\t\t\treturn err\n'
+  '\t\t\t\t}\n'
+  '\t\t\t}\n',
+  '\t}\n'
+  '}\n'
+  '\n'
+  '// validateRegistryScopes validates if the policy statements are following the\n'
+  '// Notary Project spec rules for registry scopes\n'
+  'func validateRegistryScopes(statements []OCITrustPolicy) error {\n'
+  '\t// every statement has at least one scope\n'
+  '\tregistryScopeCount := make(map[string]int, len(statements))\n'
+  '\n'
+  '\t// compile the scope format once for the whole document rather than once\n'
+  '\t// per scope\n'
+  '\tscopeFormat := newRegistryScopeFormat()\n'
+  '\tfor i := range statements {\n'
+  '\t\tname, scopes := statements[i].Name, statements[i].RegistryScopes\n'
+  '\n'
+  '\t\t// Verify registry scopes are valid\n'
+  '\t\tif len(scopes) == 0 {\n'
+  '\t\t\treturn fmt.Errorf("oci trust policy statement %q has zero registry scopes, it must specify registry scopes with at least one value", name)\n'
+  '\t\t}\n'
+  '\t\tif len(scopes) > 1 && slices.Contains(scopes, trustpolicy.Wildcard) {\n'
+  '\t\t\treturn fmt.Errorf("oci trust policy statement %q uses wildcard registry scope \'*\', a wildcard scope cannot be used in conjunction with other scope '
+  'values", name)\n'
+  '\t\t}\n'
+  '\t\tfor _, scope := range scopes {\n'
+  '\t\t\tif scope != trustpolicy.Wildcard {\n'
+  '\t\t\t\tif err := scopeFormat.validate(scope); err != nil {\n'
+  '\t\t\t\t\treturn err\n'
+  '\t\t\t\t}\n'
+  '\t\t\t}\n'),
+ ('verifier/trustpolicy/oci.go',
+  '\t}\n'
+  '\n'
+  '\t// Verify one policy statement per registry scope\n'
+  '\tfor key := range registryScopeCount {\n'
+  '\t\tif registryScopeCount[key] > 1 {\n'
+  '\t\t\treturn fmt.Errorf("registry scope %q is present in multiple oci trust policy statements, one registry scope value can only be associated with one '
+  'statement", key)\n'
+  '\t\t}\n'
+  '\t}\n'
+  '\n',
+  '\t}\n'
+  '\n'
+  '\t// Verify one policy statement per registry scope\n'
+  '\tfor scope, count := range registryScopeCount {\n'
+  '\t\tif count > 1 {\n'
+  '\t\t\treturn fmt.Errorf("registry scope %q is present in multiple oci trust policy statements, one registry scope value can only be associated with one '
+  'statement", scope)\n'
+  '\t\t}\n'
+  '\t}\n'
+  '\n'),
+ ('verifier/trustpolicy/oci.go',
+  '// validateRegistryScopeFormat validates if a scope is following the format\n'
+  '// defined in distribution spec\n'
+  'func validateRegistryScopeFormat(scope string) error {\n'
+  '\t// Domain and Repository regexes are adapted from distribution\n'
+  '\t// implementation\n'
+  '\t// https://github.com/distribution/distribution/blob/main/reference/regexp.go#L31\n'
+  '\tdomainRegexp := '
+  'regexp.MustCompile(`^(?:[a-zA-Z0-9]|[a-zA-Z0-9][a-zA-Z0-9-]*[a-zA-Z0-9])(?:(?:\\.(?:[a-zA-Z0-9]|[a-zA-Z0-9][a-zA-Z0-9-]*[a-zA-Z0-9]))+)?(?::[0-9]+)?$`)\n'
+  '\trepositoryRegexp := regexp.MustCompile(`^[a-z0-9]+(?:(?:(?:[._]|__|[-]*)[a-z0-9]+)+)?(?:(?:/[a-z0-9]+(?:(?:(?:[._]|__|[-]*)[a-z0-9]+)+)?)+)?$`)\n'
+  '\tensureMessage := "make sure it is a fully qualified repository without the scheme, protocol or tag. For example domain.com/my/repository or a local scope '
+  'like local/myOCILayout"\n'
+  '\terrorMessage := "registry scope %q is not valid, " + ensureMessage\n'
+  '\terrorWildCardMessage := "registry scope %q with wild card(s) is not valid, " + ensureMessage\n',
+  '// validateRegistryScopeFormat validates if a scope is following the format\n'
+  '// defined in distribution spec\n'
+  'func validateRegistryScopeFormat(scope string) error {\n'
+  '\treturn newRegistryScopeFormat().validate(scope)\n'
+  '}\n'
+  '\n'
+  '// registryScopeFormat holds the compiled expressions of the registry scope\n'
+  '// format, so that several scopes can be validated without compiling the\n'
+  '// expressions again.\n'
+  'type registryScopeFormat struct {\n'
+  '\tdomainRegexp     *regexp.Regexp\n'
+  '\trepositoryRegexp *regexp.Regexp\n'
+  '}\n'
+  '\n'
+  '// newRegistryScopeFormat compiles the registry scope format\n'
+  'func newRegistryScopeFormat() *registryScopeFormat {\n'
+  '\t// Domain and Repository regexes are adapted from distribution\n'
+  '\t// implementation\n'
+  '\t// https://github.com/distribution/distribution/blob/main/reference/regexp.go#L31\n'
+  '\treturn &registryScopeFormat{\n'
+  '\t\tdomainRegexp:     '
+  'regexp.MustCompile(`^(?:[a-zA-Z0-9]|[a-zA-Z0-9][a-zA-Z0-9-]*[a-zA-Z0-9])(?:(?:\\.(?:[a-zA-Z0-9]|[a-zA-Z0-9][a-zA-Z0-9-]*[a-zA-Z0-9]))+)?(?::[0-9]+)?$`),\n'
+  '\t\trepositoryRegexp: regexp.MustCompile(`^[a-z0-9]+(?:(?:(?:[._]|__|[-]*)[a-z0-9]+)+)?(?:(?:/[a-z0-9]+(?:(?:(?:[._]|__|[-]*)[a-z0-9]+)+)?)+)?$`),\n'
+  '\t}\n'
+  '}\n'
+  '\n'
+  '// validate validates if a scope is following the format defined in\n'
+  '// distribution spec\n'
+  'func (f *registryScopeFormat) validate(scope string) error {\n'
+  '\tensureMessage := "make sure it is a fully qualified repository without the scheme, protocol or tag. For example domain.com/my/repository or a local scope '
+  'like local/myOCILayout"\n'
+  '\terrorMessage := "registry scope %q is not valid, " + ensureMessage\n'
+  '\terrorWildCardMessage := "registry scope %q with wild card(s) is not valid, " + ensureMessage\n'),
+ ('verifier/trustpolicy/oci.go',
+  '\tif !found {\n'
+  '\t\treturn fmt.Errorf(errorMessage, scope)\n'
+  '\t}\n'
+  '\tif domain == "" || repository == "" || !domainRegexp.MatchString(domain) || !repositoryRegexp.MatchString(repository) {\n'
+  '\t\treturn fmt.Errorf(errorMessage, scope)\n'
+  '\t}\n'
+  '\n',
+  '\tif !found {\n'
+  '\t\treturn fmt.Errorf(errorMessage, scope)\n'
+  '\t}\n'
+  '\tif domain == "" || repository == "" || !f.domainRegexp.MatchString(domain) || !f.repositoryRegexp.MatchString(repository) {\n'
+  '\t\treturn fmt.Errorf(errorMessage, scope)\n'
+  '\t}\n'
+  '\n'),
+ ('verifier/trustpolicy/trustpolicy.go',
+  '\tif err != nil {\n'
+  '\t\treturn fmt.Errorf("trust policy statement %q has invalid signatureVerification: %w", name, err)\n'
+  '\t}\n'
+  '\tif signatureVerification.VerifyTimestamp != "" &&\n'
+  '\t\tsignatureVerification.VerifyTimestamp != OptionAlways &&\n'
+  '\t\tsignatureVerification.VerifyTimestamp != OptionAfterCertExpiry {\n'
+  '\t\treturn fmt.Errorf("trust policy statement %q has invalid signatureVerification: verifyTimestamp must be %q or %q, but got %q", name, OptionAlways, '
+  'OptionAfterCertExpiry, signatureVerification.VerifyTimestamp)\n'
+  '\t}\n'
+  '\n'
+  '\t// Any signature verification other than "skip" needs a trust store and\n',
+  '\tif err != nil {\n'
+  '\t\treturn fmt.Errorf("trust policy statement %q has invalid signatureVerification: %w", name, err)\n'
+  '\t}\n'
+  '\tif verifyTimestamp := signatureVerification.VerifyTimestamp; verifyTimestamp != "" &&\n'
+  '\t\tverifyTimestamp != OptionAlways &&\n'
+  '\t\tverifyTimestamp != OptionAfterCertExpiry {\n'
+  '\t\treturn fmt.Errorf("trust policy statement %q has invalid signatureVerification: verifyTimestamp must be %q or %q, but got %q", name, OptionAlways, '
+  'OptionAfterCertExpiry, verifyTimestamp)\n'
+  '\t}\n'
+  '\n'
+  '\t// Any signature verification other than "skip" needs a trust store and\n'),
+ ('verifier/trustpolicy/trustpolicy.go',
+  '\t\treturn fmt.Errorf("trust policy statement %q uses a wildcard trusted identity \'*\', a wildcard identity cannot be used in conjunction with other '
+  'values", policyName)\n'
+  '\t}\n'
+  '\n'
+  '\tvar parsedDNs []parsedDN\n'
+  '\t// If there are trusted identities, verify they are valid\n'
+  '\tfor _, identity := range tis {\n'
+  '\t\tif identity == "" {\n',
+  '\t\treturn fmt.Errorf("trust policy statement %q uses a wildcard trusted identity \'*\', a wildcard identity cannot be used in conjunction with other '
+  'values", policyName)\n'
+  '\t}\n'
+  '\n'
+  '\t// every identity yields at most one parsed DN\n'
+  '\tparsedDNs := make([]parsedDN, 0, len(tis))\n'
+  '\t// If there are trusted identities, verify they are valid\n'
+  '\tfor _, identity := range tis {\n'
+  '\t\tif identity == "" {\n'),
+ ('verifier/trustpolicy/trustpolicy.go',
+  '}\n'
+  '\n'
+  'func validateOverlappingDNs(policyName string, parsedDNs []parsedDN) error {\n'
+  '\tfor i, dn1 := range parsedDNs {\n'
+  '\t\tfor j, dn2 := range parsedDNs {\n'
+  '\t\t\tif i != j && pkix.IsSubsetDN(dn1.ParsedMap, dn2.ParsedMap) {\n'
+  '\t\t\t\treturn fmt.Errorf("trust policy statement %q has overlapping x509 trustedIdentities, %q overlaps with %q", policyName, dn1.RawString, '
+  'dn2.RawString)\n'
+  '\t\t\t}\n'
+  '\t\t}\n'
+  '\t}\n',
+  '}\n'
+  '\n'
+  'func validateOverlappingDNs(policyName string, parsedDNs []parsedDN) error {\n'
+  '\t// iterate by index to avoid copying the elements\n'
+  '\tfor i := range parsedDNs {\n'
+  '\t\tfor j := range parsedDNs {\n'
+  '\t\t\tif i != j && pkix.IsSubsetDN(parsedDNs[i].ParsedMap, parsedDNs[j].ParsedMap) {\n'
+  '\t\t\t\treturn fmt.Errorf("trust policy statement %q has overlapping x509 trustedIdentities, %q overlaps with %q", policyName, parsedDNs[i].RawString, '
+  'parsedDNs[j].RawString)\n'
+  '\t\t\t}\n'
+  '\t\t}\n'
+  '\t}\n')]
+
+NEW = [
+ # ---- whole refactorings -------------------------------------------------------------------------------------------
+ dict(name='benign-refactoring-control-flow', expect='silent', edits=P2),
+ dict(name='benign-refactoring-helpers', expect='silent', edits=P3),
+ dict(name='benign-refactoring-hoisting', expect='silent', edits=P4),
+ # ---- materialised short-circuit conditions (`case a && b:`) ------------------------------------------------------------
+ dict(name='switch-scope-wildcard-with-others', expect='flagged(scope/wildcard-alone)',
+      edits=P2 + [(O, '\t\tcase n > 1 && slices.Contains(statement.RegistryScopes, trustpolicy.Wildcard):', '\t\tcase n > 2 && slices.Contains(statement.RegistryScopes, trustpolicy.Wildcard):')]),
+ dict(name='switch-scope-wildcard-or', expect='flagged(scope/wildcard-alone)',
+      edits=P2 + [(O, '\t\tcase n > 1 && slices.Contains(statement.RegistryScopes, trustpolicy.Wildcard):', '\t\tcase n > 1 && slices.Contains(statement.RegistryScopes, trustpolicy.Wildcard) && statement.Name != "":')]),
+ dict(name='switch-skip-any-type', expect='flagged(custom/skip-only-revocation)',
+      edits=P2 + [(T, '\t\tcase validationAction == ActionSkip && validationType != TypeRevocation:', '\t\tcase validationAction == ActionSkip && validationType != TypeRevocation && validationType != TypeAuthenticity:')]),
+ dict(name='switch-verify-timestamp-any', expect='flagged(core/verify-timestamp-option)',
+      edits=P2 + [(T, '\tcase "", OptionAlways, OptionAfterCertExpiry:\n\t\t// not set or a known option\n\tdefault:\n', '\tcase "", OptionAlways, OptionAfterCertExpiry:\n\t\t// not set or a known option\n\tcase "never":\n\tdefault:\n')]),
+ dict(name='switch-blob-second-global', expect='flagged(blob/document/global-rules)',
+      edits=P2 + [(B, '\t\tcase foundGlobalPolicy:\n', '\t\tcase foundGlobalPolicy && statement.Name == "":\n')]),
+ dict(name='guard-skip-with-identities', expect='flagged(core/skip-no-identities)',
+      edits=P2 + [(T, '\t\tif len(trustStores) > 0 || len(trustedIdentities) > 0 {', '\t\tif len(trustStores) > 0 {')]),
+ dict(name='guard-identity-continue-before-empty-value', expect='flagged(identity/empty-value)',
+      edits=P2 + [(T, '\t\tif identityValue == "" {\n\t\t\treturn fmt.Errorf("trust policy statement %q has trusted identity %q without an identity value", policyName, identity)\n\t\t}\n', '\t\tif identityValue == "" {\n\t\t\tcontinue\n\t\t}\n')]),
+ dict(name='guard-overlap-same-index-only', expect='flagged(identity/overlap/all-ordered-pairs)',
+      edits=P2 + [(T, '\t\t\tif i == j {\n\t\t\t\tcontinue\n\t\t\t}\n', '\t\t\tif i >= j {\n\t\t\t\tcontinue\n\t\t\t}\n')]),
+ dict(name='merged-scope-format-condition-drops-domain', expect='flagged(scope-format/domain-non-empty)',
+      edits=P2 + [(O, '\tif !found || domain == "" || repository == "" ||', '\tif !found || repository == "" ||')]),
+ # ---- the range value in the uniqueness loop -------------------------------------------------------------------------
+ dict(name='benign-unique-range-value', file=O, expect='silent',
+      find='\tfor key := range registryScopeCount {\n\t\tif registryScopeCount[key] > 1 {', replace='\tfor key, count := range registryScopeCount {\n\t\tif count > 1 {'),
+ dict(name='unique-range-value-two-allowed', file=O, expect='flagged(scope/unique)',
+      find='\tfor key := range registryScopeCount {\n\t\tif registryScopeCount[key] > 1 {', replace='\tfor key, count := range registryScopeCount {\n\t\tif count > 2 {'),
+ dict(name='unique-range-value-other-map', expect='flagged(scope/)',
+      edits=[(O, '\tfor key := range registryScopeCount {\n\t\tif registryScopeCount[key] > 1 {', '\tfor key, count := range seen {\n\t\tif count > 1 {'),
+             (O, '\tregistryScopeCount := make(map[string]int)\n', '\tregistryScopeCount := make(map[string]int)\n\tseen := make(map[string]int)\n'),
+             (O, '\t\t\tregistryScopeCount[scope]++\n', '\t\t\tregistryScopeCount[scope]++\n\t\t\tseen[statement.Name] = registryScopeCount[scope]\n')]),
+ # ---- the scope validator is handed the statement list; patterns compiled once into an object ------------------------------
+ dict(name='hoisted-scopes-skip-first-statement', expect='flagged(scope)',
+      edits=P4 + [(O, '\tif err := validateRegistryScopes(statements); err != nil {', '\tif err := validateRegistryScopes(statements[1:]); err != nil {')]),
+ dict(name='hoisted-scopes-result-dropped', expect='flagged(oci/document/scope-rules)',
+      edits=P4 + [(O, '\tif err := validateRegistryScopes(statements); err != nil {\n\t\treturn err\n\t}\n', '\t_ = validateRegistryScopes(statements)\n')]),
+ dict(name='hoisted-scope-format-unchecked-for-first', expect='flagged(scope/format)',
+      edits=P4 + [(O, '\t\t\tif scope != trustpolicy.Wildcard {\n\t\t\t\tif err := scopeFormat.validate(scope); err != nil {', '\t\t\tif scope != trustpolicy.Wildcard && i > 0 {\n\t\t\t\tif err := scopeFormat.validate(scope); err != nil {')]),
+ dict(name='hoisted-pattern-overwritten', expect='flagged(scope-format/domain-pattern)',
+      edits=P4 + [(O, '// validate validates if a scope is following the format defined in\n// distribution spec\n', '// relax lets any domain pass\nfunc (f *registryScopeFormat) relax() { f.domainRegexp = regexp.MustCompile(`.*`) }\n\n// validate validates if a scope is following the format defined in\n// distribution spec\n'),
+                  (O, '\tscopeFormat := newRegistryScopeFormat()\n', '\tscopeFormat := newRegistryScopeFormat()\n\tif len(statements) > 3 {\n\t\tscopeFormat.relax()\n\t}\n')]),
+ dict(name='hoisted-pattern-not-constant', expect='flagged(scope-format/repository-pattern)',
+      edits=P4 + [(O, 'func newRegistryScopeFormat() *registryScopeFormat {', 'func newRegistryScopeFormat(extra ...string) *registryScopeFormat {'),
+                  (O, '(?:(?:/[a-z0-9]+(?:(?:(?:[._]|__|[-]*)[a-z0-9]+)+)?)+)?$`),\n\t}', '(?:(?:/[a-z0-9]+(?:(?:(?:[._]|__|[-]*)[a-z0-9]+)+)?)+)?$` + strings.Join(extra, "|")),\n\t}')]),
+ dict(name='hoisted-pattern-address-taken', expect='flagged(scope-format/domain-pattern)',
+      edits=P4 + [(O, '// validate validates if a scope is following the format defined in\n// distribution spec\n', '// domain exposes the domain pattern slot\nfunc (f *registryScopeFormat) domain() **regexp.Regexp { return &f.domainRegexp }\n\n// validate validates if a scope is following the format defined in\n// distribution spec\n'),
+                  (O, '\tscopeFormat := newRegistryScopeFormat()\n', '\tscopeFormat := newRegistryScopeFormat()\n\tif len(statements) > 3 {\n\t\t*scopeFormat.domain() = regexp.MustCompile(`.*`)\n\t}\n')]),
+ dict(name='hoisted-domain-not-matched', expect='flagged(scope-format/domain-pattern)',
+      edits=P4 + [(O, '!f.domainRegexp.MatchString(domain) || ', '')]),
+ dict(name='benign-pattern-package-variables', expect='silent',
+      edits=[(O, '\tdomainRegexp := regexp.MustCompile(', '\tdomainRegexp = regexp.MustCompile('),
+             (O, '\trepositoryRegexp := regexp.MustCompile(', '\trepositoryRegexp = regexp.MustCompile('),
+             (O, 'var supportedOCIPolicyVersions = []string{"1.0"}\n', 'var supportedOCIPolicyVersions = []string{"1.0"}\n\nvar domainRegexp, repositoryRegexp *regexp.Regexp\n')],
+      why='silent: still compiled in place before use (single store each, constant)'),
+ dict(name='pointer-loop-core-skipped-for-first', expect='flagged(oci/document/core-rules)',
+      edits=P4 + [(O, '\t\tif err := validatePolicyCore(statement.Name, statement.SignatureVerification, statement.TrustStores, statement.TrustedIdentities); err != nil {\n\t\t\treturn fmt.Errorf("oci trust policy: %w", err)', '\t\tif err := validatePolicyCore(statement.Name, statement.SignatureVerification, statement.TrustStores, statement.TrustedIdentities); err != nil && i > 0 {\n\t\t\treturn fmt.Errorf("oci trust policy: %w", err)')]),
+ # ---- checks extracted into helpers ---------------------------------------------------------------------------------------
+ dict(name='helper-statement-name-not-recorded', expect='flagged(document/duplicate-name)',
+      edits=P3 + [(T, '\tseenNames.Add(name)\n\treturn nil\n}', '\tif len(trustStores) > 0 {\n\t\tseenNames.Add(name)\n\t}\n\treturn nil\n}')]),
+ dict(name='helper-statement-core-error-ignored', expect='flagged(document/core-rules)',
+      edits=P3 + [(T, '\tif err := validatePolicyCore(name, signatureVerification, trustStores, trustedIdentities); err != nil {\n\t\treturn fmt.Errorf("%s trust policy: %w", kind, err)', '\tif err := validatePolicyCore(name, signatureVerification, trustStores, trustedIdentities); err != nil && kind != "blob" {\n\t\treturn fmt.Errorf("%s trust policy: %w", kind, err)')]),
+ dict(name='helper-statement-result-dropped', expect='flagged(blob/document/core-rules)',
+      edits=P3 + [(B, '\t\tif err := validateStatement(blobPolicyKind, policyNames, statement.Name, statement.SignatureVerification, statement.TrustStores, statement.TrustedIdentities); err != nil {\n\t\t\treturn err\n\t\t}\n', '\t\t_ = validateStatement(blobPolicyKind, policyNames, statement.Name, statement.SignatureVerification, statement.TrustStores, statement.TrustedIdentities)\n')]),
+ dict(name='helper-statement-other-name', expect='flagged(oci/document/duplicate-name)',
+      edits=P3 + [(O, '\t\tif err := validateStatement(ociPolicyKind, policyNames, statement.Name, statement.SignatureVerification,', '\t\tif err := validateStatement(ociPolicyKind, set.New[string](), statement.Name, statement.SignatureVerification,'),
+                  (O, '\tpolicyNames := set.New[string]()\n', '\tpolicyNames := set.New[string]()\n\t_ = policyNames\n')]),
+ dict(name='helper-header-version-unchecked', expect='flagged(document/unsupported-version)',
+      edits=P3 + [(T, '\tif !slices.Contains(supportedVersions, version) {', '\tif !slices.Contains(supportedVersions, version) && kind == "oci" {')]),
+ dict(name='helper-global-skip-unchecked', expect='flagged(blob/document/global-rules)',
+      edits=P3 + [(B, '\tif signatureVerification.VerificationLevel == LevelSkip.Name {\n\t\treturn errors.New("global blob', '\tif signatureVerification.VerificationLevel == LevelSkip.Name && foundGlobalPolicy {\n\t\treturn errors.New("global blob')]),
+ dict(name='helper-global-F1', expect='flagged(blob/document/global-rules)',
+      edits=P3 + [(B, '\t"fmt"\n', '\t"fmt"\n\t"reflect"\n'),
+                  (B, '\tif signatureVerification.VerificationLevel == LevelSkip.Name {\n\t\treturn errors.New("global blob', '\tif reflect.DeepEqual(signatureVerification.VerificationLevel, LevelSkip) {\n\t\treturn errors.New("global blob')]),
+ dict(name='helper-global-second-accepted', expect='flagged(blob/document/global-rules)',
+      edits=P3 + [(B, '\tif foundGlobalPolicy {\n\t\treturn errors.New("multiple blob', '\tif foundGlobalPolicy && signatureVerification.VerifyTimestamp != "" {\n\t\treturn errors.New("multiple blob')]),
+ dict(name='helper-global-flag-not-passed', expect='flagged(blob/document/global-rules)',
+      edits=P3 + [(B, 'validateGlobalPolicy(statement.SignatureVerification, foundGlobalPolicy); err != nil {', 'validateGlobalPolicy(statement.SignatureVerification, foundGlobalPolicy && statement.Name == ""); err != nil {')]),
+ dict(name='helper-global-result-dropped', expect='flagged(blob/document/global-rules)',
+      edits=P3 + [(B, '\t\t\tif err := validateGlobalPolicy(statement.SignatureVerification, foundGlobalPolicy); err != nil {\n\t\t\t\treturn err\n\t\t\t}\n', '\t\t\t_ = validateGlobalPolicy(statement.SignatureVerification, foundGlobalPolicy)\n')]),
+ dict(name='helper-verify-timestamp-any-long', expect='flagged(core/verify-timestamp-option)',
+      edits=P3 + [(T, '\t\toption != OptionAfterCertExpiry {\n', '\t\toption != OptionAfterCertExpiry && len(option) < 5 {\n')]),
+ dict(name='helper-verify-timestamp-other-value', expect='flagged(core/verify-timestamp-option)',
+      edits=P3 + [(T, '\tif err := validateVerifyTimestamp(name, signatureVerification.VerifyTimestamp); err != nil {', '\tif err := validateVerifyTimestamp(name, OptionAlways); err != nil {')]),
+ dict(name='helper-verify-timestamp-result-dropped', expect='flagged(core/verify-timestamp-option)',
+      edits=P3 + [(T, '\tif err := validateVerifyTimestamp(name, signatureVerification.VerifyTimestamp); err != nil {\n\t\treturn err\n\t}\n', '\t_ = validateVerifyTimestamp(name, signatureVerification.VerifyTimestamp)\n')]),
+ dict(name='helper-level-case-insensitive', expect='flagged(level/by-name)',
+      edits=P3 + [(T, '\t\tif l.Name == name {\n\t\t\tlevel = l', '\t\tif strings.EqualFold(l.Name, name) {\n\t\t\tlevel = l')]),
+ dict(name='helper-level-other-name', expect='flagged(level/by-name)',
+      edits=P3 + [(T, '\tbaseLevel := findVerificationLevel(signatureVerification.VerificationLevel)', '\tbaseLevel := findVerificationLevel(strings.ToLower(signatureVerification.VerificationLevel))')]),
+ dict(name='helper-level-default', expect='flagged(level/by-name)',
+      edits=P3 + [(T, '\treturn level\n}', '\tif level == nil {\n\t\treturn LevelAudit\n\t}\n\treturn level\n}')]),
+ dict(name='helper-override-skip-any-type', expect='flagged(custom/skip-only-revocation)',
+      edits=P3 + [(T, '\t} else if validationType != TypeRevocation && validationAction == ActionSkip {\n\t\treturn "", "", fmt.Errorf(', '\t} else if validationType != TypeRevocation && validationType != TypeExpiry && validationAction == ActionSkip {\n\t\treturn "", "", fmt.Errorf(')]),
+ dict(name='helper-override-integrity', expect='flagged(custom/integrity)',
+      edits=P3 + [(T, '\tif validationType == TypeIntegrity {\n\t\treturn "", "", fmt.Errorf(', '\tif validationType == TypeIntegrity && validationAction == ActionSkip {\n\t\treturn "", "", fmt.Errorf(')]),
+ dict(name='helper-override-raw-key-stored', expect='flagged(custom/)',
+      edits=P3 + [(T, '\t\tcustomVerificationLevel.Enforcement[validationType] = validationAction\n', '\t\t_ = validationType\n\t\tcustomVerificationLevel.Enforcement[key] = validationAction\n')]),
+ dict(name='helper-identity-empty-value', expect='flagged(identity/empty-value)',
+      edits=P3 + [(T, '\tif identityValue == "" {\n\t\treturn nil, false, fmt.Errorf("trust policy statement %q has trusted identity %q without an identity value", policyName, identity)\n\t}\n', '')]),
+ dict(name='helper-identity-dn-error-not-x509', expect='flagged(identity/dn-parses)',
+      edits=P3 + [(T, '\tif err != nil {\n\t\treturn nil, false, fmt.Errorf("trust policy statement %q has trusted identity %q with invalid identity value: %w", policyName, identity, err)\n\t}\n\treturn dn, true, nil', '\tif err != nil {\n\t\treturn nil, false, nil\n\t}\n\treturn dn, true, nil')]),
+ dict(name='helper-identity-no-separator-not-x509', expect='flagged(identity/separator)',
+      edits=P3 + [(T, '\tif !found {\n\t\treturn nil, false, fmt.Errorf("trust policy statement %q has trusted identity %q missing separator", policyName, identity)\n\t}\n', '\tif !found {\n\t\treturn nil, false, nil\n\t}\n')]),
+ dict(name='helper-identity-x509-not-collected', expect='flagged(identity/overlap)',
+      edits=P3 + [(T, '\t\tif isX509Subject {\n\t\t\tparsedDNs = append(', '\t\tif isX509Subject && len(parsedDNs) == 0 {\n\t\t\tparsedDNs = append(')]),
+ dict(name='helper-identity-x509-reported-false', expect='flagged(identity/overlap)',
+      edits=P3 + [(T, '\treturn dn, true, nil\n', '\treturn dn, len(dn) > 3, nil\n')]),
+ dict(name='helper-identity-error-ignored', expect='flagged(identity/)',
+      edits=P3 + [(T, '\t\tdn, isX509Subject, err := parseTrustedIdentity(policyName, identity)\n\t\tif err != nil {\n\t\t\treturn err\n\t\t}\n', '\t\tdn, isX509Subject, _ := parseTrustedIdentity(policyName, identity)\n')]),
+ dict(name='inlined-overlap-half-pairs', expect='flagged(identity/overlap/all-ordered-pairs)',
+      edits=P3 + [(T, '\t\tfor j, dn2 := range parsedDNs {\n\t\t\tif i != j && pkix.IsSubsetDN(dn1.ParsedMap, dn2.ParsedMap) {', '\t\tfor _, dn2 := range parsedDNs[i+1:] {\n\t\t\tif pkix.IsSubsetDN(dn1.ParsedMap, dn2.ParsedMap) {')]),
+ dict(name='inlined-overlap-bypassed', expect='flagged(identity/overlap)',
+      edits=P3 + [(T, '\t// Verify there are no overlapping DNs\n\tfor i, dn1 := range parsedDNs {', '\t// Verify there are no overlapping DNs\n\tif len(parsedDNs) > 8 {\n\t\treturn nil\n\t}\n\tfor i, dn1 := range parsedDNs {')]),
+ dict(name='inlined-overlap-other-list', expect='flagged(identity/overlap)',
+      edits=P3 + [(T, '\t// Verify there are no overlapping DNs\n\tfor i, dn1 := range parsedDNs {\n\t\tfor j, dn2 := range parsedDNs {', '\t// Verify there are no overlapping DNs\n\tfirst := parsedDNs\n\tif len(first) > 2 {\n\t\tfirst = first[:2]\n\t}\n\tfor i, dn1 := range first {\n\t\tfor j, dn2 := range first {')]),
+ dict(name='name-set-per-iteration', file=O, expect='flagged(oci/document/duplicate-name)',
+      find='\tpolicyNames := set.New[string]()\n\tfor _, statement := range policyDoc.TrustPolicies {\n', replace='\tfor _, statement := range policyDoc.TrustPolicies {\n\t\tpolicyNames := set.New[string]()\n'),
+ dict(name='name-added-to-other-set', file=B, expect='flagged(blob/document/duplicate-name)',
+      edits=[(B, '\tpolicyNames := set.New[string]()\n', '\tpolicyNames, globalNames := set.New[string](), set.New[string]()\n'),
+             (B, '\t\tpolicyNames.Add(statement.Name)\n', '\t\tif statement.GlobalPolicy {\n\t\t\tglobalNames.Add(statement.Name)\n\t\t} else {\n\t\t\tpolicyNames.Add(statement.Name)\n\t\t}\n')]),
+ # ---- strings.IndexByte for strings.Contains (refactoring out-C08/3) ----------------------------------------------------------
+ dict(name='benign-scope-star-indexbyte', file=O, expect='silent',
+      find='\tif len(scope) > 1 && strings.Contains(scope, "*") {', replace="\tif len(scope) > 1 && strings.IndexByte(scope, '*') >= 0 {"),
+ dict(name='scope-star-indexbyte-not-first', file=O, expect='flagged(scope-format/no-embedded-wildcard)',
+      find='\tif len(scope) > 1 && strings.Contains(scope, "*") {', replace="\tif len(scope) > 1 && strings.IndexByte(scope, '*') > 0 {"),
+]
+
+# ---- file-name validator as a loop over the bytes (refactoring out-C16/4) ------------------------------------------------------
+BYTELOOP = [(F, '\t"regexp"\n', ''),
+            (F, '\treturn regexp.MustCompile(`^[a-zA-Z0-9_.-]+$`).MatchString(fileName)\n}\n',
+                '\tif fileName == "" {\n\t\treturn false\n\t}\n\tfor i := 0; i < len(fileName); i++ {\n\t\tif !isFileNameChar(fileName[i]) {\n\t\t\treturn false\n\t\t}\n\t}\n\treturn true\n}\n\n'
+                '// isFileNameChar reports whether c is in the set [a-zA-Z0-9_.-].\nfunc isFileNameChar(c byte) bool {\n\tswitch {\n\tcase \'a\' <= c && c <= \'z\', \'A\' <= c && c <= \'Z\', \'0\' <= c && c <= \'9\':\n\t\treturn true\n\t}\n\treturn c == \'_\' || c == \'.\' || c == \'-\'\n}\n')]
+NEW += [
+ dict(name='benign-filename-byte-loop', expect='silent', edits=BYTELOOP),
+ dict(name='benign-filename-byte-loop-inline', expect='silent',
+      edits=BYTELOOP + [(F, '\t\tif !isFileNameChar(fileName[i]) {\n', "\t\tif c := fileName[i]; !(c >= 'a' && c <= 'z' || c >= '0' && c <= '9' || c == '_' || c == '-' || c == '.') {\n")]),
+ dict(name='filename-byte-loop-admits-slash', expect='flagged(file-name/certified)',
+      edits=BYTELOOP + [(F, "\treturn c == '_' || c == '.' || c == '-'\n", "\treturn c == '_' || c == '.' || c == '-' || c == '/'\n")]),
+ dict(name='filename-byte-loop-admits-range-with-backslash', expect='flagged(file-name/certified)',
+      edits=BYTELOOP + [(F, "'A' <= c && c <= 'Z'", "'A' <= c && c <= '_'")]),
+ dict(name='filename-byte-loop-skips-first', expect='flagged(file-name/certified)',
+      edits=BYTELOOP + [(F, '\tfor i := 0; i < len(fileName); i++ {', '\tfor i := 1; i < len(fileName); i++ {')]),
+ dict(name='filename-byte-loop-every-second', expect='flagged(file-name/certified)',
+      edits=BYTELOOP + [(F, '\tfor i := 0; i < len(fileName); i++ {', '\tfor i := 0; i < len(fileName); i += 2 {')]),
+ dict(name='filename-byte-loop-stops-early', expect='flagged(file-name/certified)',
+      edits=BYTELOOP + [(F, '\t\tif !isFileNameChar(fileName[i]) {\n\t\t\treturn false\n\t\t}\n', '\t\tif !isFileNameChar(fileName[i]) {\n\t\t\treturn false\n\t\t}\n\t\tif i > 64 {\n\t\t\tbreak\n\t\t}\n')]),
+ dict(name='filename-byte-loop-tolerates-late-bytes', expect='flagged(file-name/certified)',
+      edits=BYTELOOP + [(F, '\t\tif !isFileNameChar(fileName[i]) {\n', '\t\tif !isFileNameChar(fileName[i]) && i < 8 {\n')]),
+ dict(name='filename-byte-loop-dotdot', expect='flagged(file-name/certified)',
+      edits=BYTELOOP + [(F, '\tif fileName == "." || fileName == ".." {', '\tif fileName == "." {')]),
+ dict(name='filename-byte-loop-empty', expect='flagged(file-name/certified)',
+      edits=BYTELOOP + [(F, '\tif fileName == "" {\n\t\treturn false\n\t}\n', '')]),
+ dict(name='filename-byte-loop-other-string', expect='flagged(file-name/certified)',
+      edits=BYTELOOP + [(F, '\tfor i := 0; i < len(fileName); i++ {\n\t\tif !isFileNameChar(fileName[i]) {', '\tbase := filepath.Base(fileName)\n\tfor i := 0; i < len(base); i++ {\n\t\tif !isFileNameChar(base[i]) {')]),
+]
+
+# ---- a gate computed by a predicate helper --------------------------------------------------------------------------------------
+PRED = [(T, '\tif len(tis) > 1 && slices.Contains(tis, trustpolicy.Wildcard) {', '\tif !wildcardAlone(tis) {'),
+        (T, '\nfunc validateOverlappingDNs(', '\n// wildcardAlone reports whether the wildcard, if listed, is the only entry\nfunc wildcardAlone(list []string) bool {\n\treturn len(list) <= 1 || !slices.Contains(list, trustpolicy.Wildcard)\n}\n\nfunc validateOverlappingDNs(')]
+NEW += [
+ dict(name='benign-wildcard-alone-predicate', expect='silent', edits=PRED),
+ dict(name='benign-wildcard-alone-predicate-branches', expect='silent',
+      edits=PRED + [(T, '\treturn len(list) <= 1 || !slices.Contains(list, trustpolicy.Wildcard)\n', '\tif len(list) > 1 {\n\t\treturn !slices.Contains(list, trustpolicy.Wildcard)\n\t}\n\treturn true\n')]),
+ dict(name='wildcard-alone-predicate-two', expect='flagged(identity/wildcard-alone)',
+      edits=PRED + [(T, '\treturn len(list) <= 1 || !slices.Contains(list, trustpolicy.Wildcard)\n', '\treturn len(list) <= 2 || !slices.Contains(list, trustpolicy.Wildcard)\n')]),
+ dict(name='wildcard-alone-predicate-first-only', expect='flagged(identity/wildcard-alone)',
+      edits=PRED + [(T, '\treturn len(list) <= 1 || !slices.Contains(list, trustpolicy.Wildcard)\n', '\treturn len(list) <= 1 || !slices.Contains(list[:1], trustpolicy.Wildcard)\n')]),
+ dict(name='wildcard-alone-predicate-other-list', expect='flagged(identity/wildcard-alone)',
+      edits=PRED + [(T, '\tif !wildcardAlone(tis) {', '\tif !wildcardAlone(tis[1:]) {')]),
+ dict(name='wildcard-alone-predicate-inverted', expect='flagged(identity/wildcard-alone)',
+      edits=PRED + [(T, '\tif !wildcardAlone(tis) {', '\tif wildcardAlone(tis) && len(tis) > 4 {')]),
+]
+
+VARIANTS += NEW
